@@ -3,6 +3,7 @@ package main
 import (
 	"fmt"
 	"go/ast"
+	"go/constant"
 	"go/importer"
 	"go/token"
 	"go/types"
@@ -21,7 +22,7 @@ import (
 func genStructure(out, repo string) {
 	lf := newLean("Structure")
 	type site struct{ pkg, fn, what string }
-	var mapSites, pkgWrites, dropped, clocks, refVars, recvWrites []site
+	var mapSites, pkgWrites, dropped, clocks, refVars, recvWrites, scanners []site
 
 	pkgs := []string{".", "type1", "afm", "pfb", "type1/names", "psenc", "funit", "cid"}
 	for _, rel := range pkgs {
@@ -137,9 +138,24 @@ func genStructure(out, repo string) {
 						}
 					case *ast.CallExpr:
 						if se, ok := n.Fun.(*ast.SelectorExpr); ok {
+							// line scanners and the limit on the line length they are given
+							if tv, ok := info.Types[se.X]; ok && tv.Type != nil && tv.Type.String() == "*bufio.Scanner" && se.Sel.Name == "Buffer" && len(n.Args) == 2 {
+								what := "limit not constant"
+								if v := info.Types[n.Args[1]].Value; v != nil {
+									if constant.Compare(v, token.GEQ, constant.Shift(constant.MakeInt64(1), token.SHL, 62)) {
+										what = "limit >= 2^62"
+									} else {
+										what = "limit " + v.ExactString()
+									}
+								}
+								scanners = append(scanners, site{rel, "", what})
+							}
 							if id, ok := se.X.(*ast.Ident); ok {
 								if pn, ok := info.Uses[id].(*types.PkgName); ok {
 									path := pn.Imported().Path()
+									if path == "bufio" && se.Sel.Name == "NewScanner" {
+										scanners = append(scanners, site{rel, "", "scanner"})
+									}
 									if strings.HasSuffix(path, "maps") && (se.Sel.Name == "Keys" || se.Sel.Name == "Values" || se.Sel.Name == "Clone") && len(n.Args) == 1 {
 										if se.Sel.Name == "Clone" {
 											mapSites = append(mapSites, site{rel, "copy", "clone " + describe(info, n.Args[0])})
@@ -249,6 +265,7 @@ func genStructure(out, repo string) {
 	emit("pkgRefVars", "package-level variables of map, slice, pointer or array type: (package, name, type)", refVars)
 	emit("namesRecvWrites", "type1/names: per method of the shared glyph map, the fields it assigns, the methods it calls and whether it takes the lock", recvWrites)
 	emit("clockSites", "uses of time.Now, math/rand, crypto/rand, unsafe or the %p verb", clocks)
+	emit("lineScanners", "every bufio.NewScanner call and every limit given to a scanner with Buffer: (package, -, what)", scanners)
 	lf.write(out)
 }
 
